@@ -56,6 +56,9 @@ package packetlimiter
 //@   ensures [shape] shape(c)
 //@   ensures [zero-outside] zeroOutside(c)
 //@   ensures [doubled-and-rebased] len(c.times) == 2 * old(len(c.times)) && c.head == 0 && c.tail == old(len(c.times)) - 1 && c.total == old(c.total) && c.minTime == old(c.minTime) && c.interval == old(c.interval)
+//@   ensures [window-starts-at-slot-0] c.head == 0
+//@   ensures [sum-and-window-start-kept] c.total == old(c.total) && c.minTime == old(c.minTime) && c.interval == old(c.interval)
+//@   ensures [doubled] len(c.times) == 2 * old(len(c.times)) && len(c.counts) == len(c.times)
 //@   ensures [window-preserved-in-order] forall k int :: 0 <= k && k < c.tail ==> c.times[k] == old(c.times[(c.head + k) % len(c.times)]) && c.counts[k] == old(c.counts[(c.head + k) % len(c.counts)])
 
 // The limiter: disabled (nil) iff the window is non-positive or both rates are; every accounted packet adds 1 packet and
